@@ -748,6 +748,24 @@ def gen_world_many_pieces(rng):
     return w
 
 
+def gen_world_many_segments(rng, n):
+    """C16: a loadable torrent whose single piece spans n+1 files (n empty files and one real one; the same shape as
+    thousands of tiny files under a large piece length): the matcher works on as many segments as the torrent says"""
+    w = World()
+    real = TFile(3, [b"real"], gen_content(rng, 3))
+    files = [TFile(0, [b"d%d" % (i % 7), b"e%06d" % i], b"") for i in range(n)]
+    files.insert(rng.below(n + 1), real)
+    g = GT(b"manyfiles", 4, files, True)
+    w.gts = [g]; w.docs = [g.doc]
+    w.dirs.add(w.export)
+    w.scan = [(b"scan0",)]
+    w.add_file((b"scan0", b"real"), real.content)
+    w.add_file((b"bystander", b"note.txt"), b"do not touch")
+    w.has_truth = False
+    w.tag = "many segments in one piece"
+    return w
+
+
 def gen_world_misfiled(rng):
     """C01: export images that hold ANOTHER torrent file's (correct) bytes — a mis-filed download. The matcher may
     legitimately use such an image as the source of the other file's segment; what is written must still be the
